@@ -134,6 +134,40 @@ func extremeUint64(t *rapid.T, label string) uint64 {
 	return rapid.Uint64().Draw(t, label)
 }
 
+// genUntyped generates a JSON document as the untyped Go values encoding/json decodes it to.
+func genUntyped(t *rapid.T, depth int) interface{} {
+	max := 5
+	if depth <= 0 {
+		max = 3
+	}
+	switch rapid.IntRange(0, max).Draw(t, "ukind") {
+	case 0:
+		return jsonString(t, "ustr", 30)
+	case 1:
+		return rapid.Bool().Draw(t, "ubool")
+	case 2, 3:
+		// numbers come back as float64: integers up to 2^53 and fractions
+		if rapid.Bool().Draw(t, "uint") {
+			return float64(rapid.Int64Range(-(1 << 53), 1<<53).Draw(t, "unum"))
+		}
+		return finiteFloat(t, "ufloat")
+	case 4:
+		m := map[string]interface{}{}
+		n := rapid.IntRange(1, 3).Draw(t, "umaplen")
+		for i := 0; i < n; i++ {
+			m[rapid.SampledFrom([]string{"n", "a", "b", "key with space", ""}).Draw(t, "ukey")] = genUntyped(t, depth-1)
+		}
+		return m
+	default:
+		n := rapid.IntRange(1, 3).Draw(t, "uslicelen")
+		l := make([]interface{}, n)
+		for i := range l {
+			l[i] = genUntyped(t, depth-1)
+		}
+		return l
+	}
+}
+
 func finiteFloat(t *rapid.T, label string) float64 {
 	if rapid.IntRange(0, 3).Draw(t, label+".x") == 0 {
 		return rapid.SampledFrom([]float64{0, math.Copysign(0, -1), 1, -1, math.MaxFloat64, -math.MaxFloat64, math.SmallestNonzeroFloat64, 1e21, 1e-7, 0.1}).Draw(t, label+".ext")
@@ -417,7 +451,7 @@ func otherValues(codecName string) []interface{} {
 func TestC11RoundTrip(t *testing.T) {
 	rec := vt.NewRec(t, "C11", "roundtrip", "one typed value per case, through the Codec value or through the package-level helpers by id / by name, from the codec's supported domain (json/xml/form structs with scalars at extremes, slices, fixed arrays, nested structs; plain scalars and named string/bytes decoded into fresh or previously used variables; protobuf messages decoded into fresh and into previously used destinations, thrift messages); non-trivial = has a slice/array with >=2 distinct elements, an extreme scalar or a non-alphanumeric string; distinct by printed value")
 	rapid.Check(t, func(t *rapid.T) {
-		kind := rapid.SampledFrom([]string{"json", "xml", "form-struct", "form-values", "form-map", "plain", "protobuf", "thrift", "rawbody"}).Draw(t, "kind")
+		kind := rapid.SampledFrom([]string{"json", "json-untyped", "xml", "form-struct", "form-values", "form-map", "plain", "protobuf", "thrift", "rawbody"}).Draw(t, "kind")
 		c11API = rapid.SampledFrom([]string{"direct", "direct", "byid", "byname"}).Draw(t, "api")
 		defer func() { c11API = "direct" }()
 		usedBefore := rapid.Bool().Draw(t, "usedbefore") // scalar destinations may hold an earlier value
@@ -429,6 +463,33 @@ func TestC11RoundTrip(t *testing.T) {
 			canon = fmt.Sprintf("%+v", *v)
 			var d JS
 			roundTrip(t, mustCodec(t, "json"), v, &d, func() interface{} { return d }, *v)
+		case "json-untyped":
+			// untyped destinations (interface{}, map[string]interface{}, []interface{}), as a
+			// generic handler or gateway uses them: the document's values come back as the
+			// types encoding/json documents (float64, string, bool, nil, map, slice)
+			v := genUntyped(t, 2)
+			canon = fmt.Sprintf("%#v", v)
+			switch tv := v.(type) {
+			case map[string]interface{}:
+				if rapid.Bool().Draw(t, "mapdst") {
+					var d map[string]interface{}
+					roundTrip(t, mustCodec(t, "json"), tv, &d, func() interface{} { return d }, tv)
+					break
+				}
+				var d interface{}
+				roundTrip(t, mustCodec(t, "json"), tv, &d, func() interface{} { return d }, v)
+			case []interface{}:
+				if rapid.Bool().Draw(t, "slicedst") {
+					var d []interface{}
+					roundTrip(t, mustCodec(t, "json"), tv, &d, func() interface{} { return d }, tv)
+					break
+				}
+				var d interface{}
+				roundTrip(t, mustCodec(t, "json"), tv, &d, func() interface{} { return d }, v)
+			default:
+				var d interface{}
+				roundTrip(t, mustCodec(t, "json"), v, &d, func() interface{} { return d }, v)
+			}
 		case "xml":
 			v := genXS(t)
 			canon = fmt.Sprintf("%+v", *v)
